@@ -79,15 +79,19 @@ Theorem satisfies_model_trace : forall ops qs,
   valid_ops [] None ops = true -> qs_bounded qs -> satisfies (model_trace [] None ops qs) = true.
 Proof. exact (satisfies_model_trace_proved low_mask_is_partition_mask low_part_fits_two_bytes reapply_overwrites). Qed.
 
-(* The full statement without the hypothesis that the record handed to ICUD.Update is the stored
-   one:
+(* FINDING F-C03-1 (open).  The full statement, without the hypothesis that the record handed to
+   ICUD.Update is the stored one:
      forall h ws id, accepted_history [] h = true -> ... ->
        lookup (run [] h) ws id = spec_rec (touches (rev h) ws id) id
-   is refuted by the faithful model (Apply writes origin+changes, the log holds the changes only;
-   an update built from an older snapshot silently reverts the fields changed since).
-   [apply_fold_spec] is the partial theorem: its extra hypothesis [fresh_origins] (inside
-   [valid_event]) is exactly what excludes this witness.  The command processor always passes the
-   record it has just read in the same step, so the hypothesis holds in the product. *)
+   is refuted by the faithful model, as it is by the code: the live Apply writes
+   origin + changes from the record object it was given (never re-read), the log holds the changes
+   only; an update built from an older snapshot, or from the record with the same id in another
+   workspace, is accepted by BuildRawEvent and silently reverts the fields changed since
+   (corpus/C03/stale_origin_reverts.json).  istructs.ICUD.Update documents that only the record's
+   ID and QName matter.  [apply_fold_spec] is the partial theorem: its extra hypothesis
+   [fresh_origins] (inside [valid_event]) is exactly what excludes the witness; the oracle
+   [satisfies] does not make this exception.  Proposed repair: findings/C03/F-C03-1.diff
+   (Apply always rebuilds over the stored record, as the re-apply path does). *)
 Definition stale_witness : list event :=
   let d0 := mkRec 204798 1 0 0 true [Some (FNum 1); None] in
   [ mkEvent 1 [mkCreate false 204798 1 0 0 true [SetTo (FNum 1); Keep]] [];
@@ -146,7 +150,7 @@ Proof. vm_compute. reflexivity. Qed.
 
 Example satisfies_model_trace_nonvacuous :
   let t := model_trace [] None (flat_map (fun e => [OApply e; OReapply]) demo) [(1, 204799); (2, 204799); (2, 65536); (1, 7)] in
-  length t = 40%nat /\ satisfies t = true /\ agrees t = true.
+  length t = 44%nat /\ satisfies t = true /\ agrees t = true.
 Proof. vm_compute. repeat split. Qed.
 
 Example apply_frame_nonvacuous :
